@@ -48,7 +48,8 @@ class NodeWorld:
             b = Bot(self.k, 'bot%d' % i, '10.0.1.%d' % (i + 1), {'my_port': 0})
             self.bots.append(b)
         try:
-            self.node.boot(self.sim.cs, peers=[])
+            # from_genesis: a freshly installed node; the world's first blocks reach it by bulk download (the check's business)
+            self.node.boot(self.sim.cs_genesis if cfg.get('from_genesis') else self.sim.cs, peers=[])
         except Exception as e:
             # the store (code under test) refuses the valid chain the node starts with: nothing can be judged in this world
             # (C08 decides what the store must take); no run is wasted on a harness error
